@@ -155,6 +155,19 @@ func H_C09(n, alpha int) {
 				v = 0
 			}
 			verif.Assert(lit.Uint64() == v, "Uint64 disagrees with the digits written in the source")
+		} else {
+			// floating point is outside the solver's theories: the spelling is made concrete (one
+			// path per spelling within the bound) and the accessor's result compared with the
+			// correctly rounded value where one rounding step computes it (|decimal exponent| <= 22)
+			spc := verif.ConcreteStr(sp)
+			lit2 := &parser.BasicLit{ValueSpan: t.Span, Kind: t.Kind, Value: verif.ConcreteStr(t.Value)}
+			if want, exact := refFloat(spc); exact {
+				verif.Assert(lit2.Float64() == want, "Float64 disagrees with the literal's spelling")
+				if want < 1e18 {
+					verif.Assert(lit2.Uint64() == uint64(want), "Uint64 of a float literal disagrees with its spelling")
+				}
+				verif.Cover("float-value-checked")
+			}
 		}
 	}
 	if len(got) > 0 {
@@ -175,4 +188,65 @@ func H_C09(n, alpha int) {
 			verif.Cover("ident")
 		}
 	}
+}
+
+var pow10tab = [...]float64{1e0, 1e1, 1e2, 1e3, 1e4, 1e5, 1e6, 1e7, 1e8, 1e9, 1e10, 1e11, 1e12, 1e13, 1e14, 1e15, 1e16, 1e17, 1e18, 1e19, 1e20, 1e21, 1e22}
+
+// refFloat computes the value of a decimal floating-point spelling when a single
+// correctly rounded operation gives it: mantissa below 2^53 and a decimal
+// exponent of magnitude at most 22 (both operands exact). exact=false otherwise.
+func refFloat(sp string) (v float64, exact bool) {
+	var m uint64
+	e10 := 0
+	i := 0
+	for i < len(sp) && isDig(sp[i]) {
+		if m >= 1<<53/10 {
+			return 0, false
+		}
+		m = m*10 + uint64(sp[i]-'0')
+		i++
+	}
+	if i < len(sp) && sp[i] == '.' {
+		i++
+		for i < len(sp) && isDig(sp[i]) {
+			if m >= 1<<53/10 {
+				return 0, false
+			}
+			m = m*10 + uint64(sp[i]-'0')
+			e10--
+			i++
+		}
+	}
+	if i < len(sp) && (sp[i] == 'e' || sp[i] == 'E') {
+		i++
+		neg := false
+		if i < len(sp) && (sp[i] == '+' || sp[i] == '-') {
+			neg = sp[i] == '-'
+			i++
+		}
+		x := 0
+		for i < len(sp) && isDig(sp[i]) {
+			if x > 1000 {
+				return 0, false
+			}
+			x = x*10 + int(sp[i]-'0')
+			i++
+		}
+		if neg {
+			x = -x
+		}
+		e10 += x
+	}
+	if i != len(sp) {
+		return 0, false
+	}
+	switch {
+	case m == 0:
+		return 0, true
+	case 0 <= e10 && e10 <= 22:
+		return float64(m) * pow10tab[e10], true
+	case -22 <= e10 && e10 < 0:
+		return float64(m) / pow10tab[-e10], true
+	}
+	return 0, false
 }
